@@ -299,6 +299,16 @@ fn state_digests(vm: &VM<StdLibState>) -> BTreeMap<String, String> {
     m.insert("toks".into(), small(&s.registers_token_list, &names));
     m.insert("repl".into(), small(&s.repl, &names));
     m.insert("tracingmacros".into(), small(&s.tracing_macros, &names));
+    // the code tables once more, read through the public getters instead of the serialiser
+    let mut codes = String::new();
+    for c in (0u32..=400).chain([65535, 65536, 70000, 1114111]).filter_map(char::from_u32) {
+        let cat = texlang_stdlib::codes::cat_code(s, c) as u8;
+        let math = texlang_stdlib::codes::math_code(s, c).0;
+        if cat != 12 || math != 0 {
+            codes.push_str(&format!("{}:{cat}/{math};", c as u32));
+        }
+    }
+    m.insert("code-tables".into(), digest(codes));
     m.insert("commands".into(), canon_cmds(vm, &names));
     m.insert("active-characters".into(), canon_active(vm, &names));
     m
@@ -511,7 +521,7 @@ fn dec_ops(v: &[i64]) -> Option<Vec<MOp>> {
 
 /// Active characters used as targets (made active by the preamble of P1).
 const ACTIVE: &[char] = &['~', '!', '?', '@'];
-/// Primitives of `C08.stdTable`.
+/// Primitives of `C08.stdTable` and the built-in names they are registered under.
 fn prim_name(p: i64) -> Option<&'static str> {
     Some(match p {
         0 => "relax",
@@ -525,14 +535,44 @@ fn prim_name(p: i64) -> Option<&'static str> {
         23 => "month",
         24 => "day",
         25 => "time",
+        40 => "def",
+        41 => "let",
+        42 => "else",
+        43 => "fi",
+        44 => "global",
+        45 => "gdef",
+        46 => "expandafter",
+        47 => "ifnum",
+        48 => "noexpand",
         _ => return None,
     })
 }
+/// Primitives whose *names* are redefined by generated programs (control-sequence target
+/// `100 + p` is the built-in name of primitive `p`).
+const NAMED_PRIMS: &[i64] = &[0, 1, 2, 3, 4, 22, 40, 41, 42, 43, 44, 45, 46, 47, 48];
 const PARAMS: &[&str] = &["globaldefs", "endlinechar", "year", "month", "day", "time"];
+
+/// Everything the rendered program itself needs is used through an alias made by the preamble
+/// of P1, so that every primitive *name* is free to be redefined by the program.
+const Z_ALIASES: &[&str] = &[
+    "def", "gdef", "chardef", "mathchardef", "countdef", "toksdef", "let", "global", "the", "count", "dimen", "skip",
+    "toks", "catcode", "mathcode", "globaldefs", "endlinechar", "year", "month", "day", "time", "fi", "else", "relax",
+    "iftrue", "expandafter", "noexpand", "ifnum",
+];
+
+fn ops_preamble() -> String {
+    let mut s = String::from("\\catcode`\\~=13 \\catcode`\\!=13 \\catcode`\\?=13 \\catcode`\\@=13 ");
+    for n in Z_ALIASES {
+        s.push_str(&format!("\\let\\z{n}=\\{n} "));
+    }
+    s
+}
 
 fn target(tk: i64, tn: i64) -> String {
     if tk == 1 {
         ACTIVE[(tn as usize) % ACTIVE.len()].to_string()
+    } else if tn >= 100 {
+        format!("\\{}", prim_name(tn - 100).unwrap_or("relax"))
     } else {
         // \ca, \cb, …
         let mut s = String::from("\\c");
@@ -548,16 +588,34 @@ fn target(tk: i64, tn: i64) -> String {
     }
 }
 
+/// Code points behind the indices of `\catcode` / `\mathcode` variables: every initial
+/// category that the rendered text does not itself rely on, both sides of 128 and of 256.
+/// (`%` comment, `&` alignment, `$` math shift, `#` parameter, `_` subscript, `^` superscript,
+/// `|` other, DEL invalid, NUL ignored, then code points without an entry in the low table.)
+const CODE_CHARS: &[u32] = &[37, 38, 36, 35, 95, 94, 124, 127, 0, 128, 200, 255, 256, 300, 70000];
+
+fn code_char(idx: i64) -> u32 {
+    CODE_CHARS[(idx as usize) % CODE_CHARS.len()]
+}
+
 fn var_name(kind: i64, idx: i64) -> String {
     match kind {
-        0 => format!("\\count {idx}"),
-        1 => format!("\\dimen {idx}"),
-        2 => format!("\\skip {idx}"),
-        3 => format!("\\toks {idx}"),
-        4 => format!("\\catcode {}", 200 + idx),
-        5 => format!("\\mathcode {}", 200 + idx),
-        _ => format!("\\{}", PARAMS[(idx as usize) % PARAMS.len()]),
+        0 => format!("\\zcount {idx}"),
+        1 => format!("\\zdimen {idx}"),
+        2 => format!("\\zskip {idx}"),
+        3 => format!("\\ztoks {idx}"),
+        4 => format!("\\zcatcode {}", code_char(idx)),
+        5 => format!("\\zmathcode {}", code_char(idx)),
+        _ => format!("\\z{}", PARAMS[(idx as usize) % PARAMS.len()]),
     }
+}
+
+/// The category code a fresh VM gives a character (the model's "initial value").
+fn initial_catcode(c: u32) -> u8 {
+    thread_local! {
+        static FRESH: VM<StdLibState> = new_vm();
+    }
+    FRESH.with(|vm| texlang_stdlib::codes::cat_code(&vm.state, char::from_u32(c).unwrap_or('x')) as u8)
 }
 
 /// How a value of the given kind is written in an assignment and printed by `\the`.
@@ -580,7 +638,7 @@ fn default_shown(kind: i64, idx: i64) -> Option<String> {
         0 => "0".into(),
         1 | 2 => "0.0pt".into(),
         3 => "".into(),
-        4 => "12".into(),
+        4 => initial_catcode(code_char(idx)).to_string(),
         5 => "0".into(),
         _ => match idx {
             0 => "0".into(),
@@ -613,26 +671,27 @@ fn render_op(op: &MOp, model: &str, last: bool) -> Rendered {
         MOp::End => plain("}".into()),
         MOp::Ckpt => plain(String::new()),
         MOp::Assign { pre, kind, idx, val } => {
-            plain(format!("{}{}{}", "\\global".repeat(*pre as usize), var_name(*kind, *idx), val_assign(*kind, *val)))
+            plain(format!("{}{}{}", "\\zglobal".repeat(*pre as usize), var_name(*kind, *idx), val_assign(*kind, *val)))
         }
         MOp::Define { pre, tk, tn, dk, a, b } => {
             let t = target(*tk, *tn);
-            let g = "\\global".repeat(*pre as usize);
+            let g = "\\zglobal".repeat(*pre as usize);
             plain(match dk {
-                0 => format!("{g}\\def{t}{{(m{a})}}"),
-                1 => format!("{g}\\gdef{t}{{(m{a})}}"),
-                2 => format!("{g}\\chardef{t}={a} "),
-                3 => format!("{g}\\mathchardef{t}={a} "),
-                4 => format!("{g}\\countdef{t}={a} "),
-                5 => format!("{g}\\toksdef{t}={a} "),
-                6 => format!("{g}\\let{t}={} ", (*a as u8) as char),
-                7 => format!("{g}\\let{t}=\\relax "),
-                9 => format!("{g}\\let{t}={} ", target(*a, *b)),
-                _ => format!("{g}\\let{t}=\\{} ", prim_name(*a).unwrap_or("relax")),
+                0 => format!("{g}\\zdef{t}{{(m{a})}}"),
+                1 => format!("{g}\\zgdef{t}{{(m{a})}}"),
+                2 => format!("{g}\\zchardef{t}={a} "),
+                3 => format!("{g}\\zmathchardef{t}={a} "),
+                4 => format!("{g}\\zcountdef{t}={a} "),
+                5 => format!("{g}\\ztoksdef{t}={a} "),
+                6 => format!("{g}\\zlet{t}={} ", (*a as u8) as char),
+                7 => format!("{g}\\zlet{t}=\\zrelax "),
+                9 => format!("{g}\\zlet{t}={} ", target(*a, *b)),
+                // the primitive meaning, through the alias saved by the preamble
+                _ => format!("{g}\\zlet{t}=\\z{} ", prim_name(*a).unwrap_or("relax")),
             })
         }
         MOp::ReadVar { kind, idx } => Rendered {
-            tex: format!("[\\the{}]", var_name(*kind, *idx)),
+            tex: format!("[\\zthe{}]", var_name(*kind, *idx)),
             probe: true,
             expect: model_val(model, *kind, *idx),
         },
@@ -652,22 +711,31 @@ fn render_op(op: &MOp, model: &str, last: bool) -> Rendered {
                 let ch = c.parse::<u8>().map(|x| (x as char).to_string()).ok();
                 (format!("[{t}{sp}]"), ch)
             } else if let Some(n) = model.strip_prefix('M') {
-                (format!("[\\the{t}{sp}]"), Some(n.to_string()))
+                (format!("[\\zthe{t}{sp}]"), Some(n.to_string()))
             } else if let Some(rest) = model.strip_prefix('v') {
                 // v<kind>.<idx>=<d|x>
                 let (ki, val) = rest.split_once('=').unwrap_or((rest, "d"));
                 let (k, i) = ki.split_once('.').unwrap_or(("0", "0"));
                 let (k, i) = (k.parse::<i64>().unwrap_or(0), i.parse::<i64>().unwrap_or(0));
                 let w = if val == "d" { "d".to_string() } else { format!("i{val}") };
-                (format!("[\\the{t}{sp}]"), model_val(&w, k, i))
+                (format!("[\\zthe{t}{sp}]"), model_val(&w, k, i))
             } else if let Some(p) = model.strip_prefix('P') {
                 match p.parse::<i64>().unwrap_or(-1) {
                     0 => (format!("[{t}{sp}]"), Some(String::new())),
-                    1 => (format!("[\\the{t}{sp}7 ]"), None),
-                    2 => (format!("[{t}{sp}\\count 7 ]"), None),
-                    3 => (format!("[{t}{sp}y\\fi]"), Some("y".into())),
-                    4 => (format!("[\\the{t}{sp}65 ]"), Some("11".into())),
-                    _ => (format!("[\\the{t}{sp}]"), None),
+                    1 => (format!("[\\zthe{t}{sp}7 ]"), None),
+                    2 => (format!("[{t}{sp}\\zcount 7 ]"), None),
+                    3 => (format!("[{t}{sp}y\\zfi]"), Some("y".into())),
+                    4 => (format!("[\\zthe{t}{sp}65 ]"), Some("11".into())),
+                    40 | 45 => (format!("[{t}{sp}\\zq{{x}}\\zq]"), Some("x".into())),
+                    41 => (format!("[{t}{sp}\\zq=A \\zq]"), Some("A".into())),
+                    42 => (format!("[\\ziftrue a{t}{sp}b\\zfi]"), Some("a".into())),
+                    43 => (format!("[\\ziftrue a{t}{sp}]"), Some("a".into())),
+                    44 => (format!("[{t}{sp}\\zdef\\zq{{}}]"), Some(String::new())),
+                    46 => (format!("[{t}{sp}\\zrelax\\zrelax]"), Some(String::new())),
+                    47 => (format!("[{t}{sp}1<2 y\\zfi]"), Some("y".into())),
+                    48 => (format!("[{t}{sp}\\zrelax]"), Some(String::new())),
+                    20..=25 => (format!("[\\zthe{t}{sp}]"), None),
+                    _ => return plain(String::new()),
                 }
             } else {
                 return plain(String::new());
@@ -705,9 +773,18 @@ fn gen_val(kind: i64, rng: &mut Rng) -> i64 {
         0 => *rng.pick(&[0i64, 1, -1, 7, 42, -300, 2147483647, -2147483647]),
         1 | 2 => *rng.pick(&[0i64, 1, -1, 5, 100, -16000, 16000]),
         3 => rng.range(-9, 99),
-        4 => *rng.pick(&[0i64, 7, 9, 11, 12, 13, 14, 15]),
-        5 => *rng.pick(&[0i64, 1, 291, 32767]),
+        // every category, so also the type's default (12) and the character's own initial one
+        4 => rng.range(0, 15),
+        5 => *rng.pick(&[0i64, 0, 1, 291, 32767]),
         _ => 0,
+    }
+}
+
+fn gen_idx(kind: i64, rng: &mut Rng) -> i64 {
+    if kind == 4 || kind == 5 {
+        rng.range(0, CODE_CHARS.len() as i64 - 1)
+    } else {
+        rng.range(0, 3)
     }
 }
 
@@ -723,15 +800,16 @@ fn gen_assign(rng: &mut Rng, depth: usize) -> MOp {
         };
         MOp::Assign { pre, kind, idx, val }
     } else {
-        MOp::Assign { pre, kind, idx: rng.range(0, 3), val: gen_val(kind, rng) }
+        MOp::Assign { pre, kind, idx: gen_idx(kind, rng), val: gen_val(kind, rng) }
     }
 }
 
+/// A fresh name, an active character, or the name of a built-in primitive.
 fn gen_target(rng: &mut Rng) -> (i64, i64) {
-    if rng.chance(1, 3) {
-        (1, rng.range(0, ACTIVE.len() as i64 - 1))
-    } else {
-        (0, rng.range(0, 4))
+    match rng.below(6) {
+        0 | 1 => (1, rng.range(0, ACTIVE.len() as i64 - 1)),
+        2 => (0, 100 + *rng.pick(NAMED_PRIMS)),
+        _ => (0, rng.range(0, 4)),
     }
 }
 
@@ -754,10 +832,19 @@ fn gen_define(rng: &mut Rng, depth: usize) -> MOp {
         3 => (*rng.pick(&[0i64, 1, 291, 32767]), 0),
         4 | 5 => (rng.range(0, 3), 0),
         9 => gen_target(rng),
-        10 => (*rng.pick(&[0i64, 1, 2, 3, 4, 20, 21, 22, 25]), 0),
+        // a primitive meaning; for a built-in name half of the time its own
+        10 => (if tk == 0 && tn >= 100 && rng.chance(1, 2) { tn - 100 } else { gen_prim(rng) }, 0),
         _ => (0, 0),
     };
     MOp::Define { pre, tk, tn, dk, a, b }
+}
+
+fn gen_prim(rng: &mut Rng) -> i64 {
+    if rng.chance(1, 5) {
+        *rng.pick(&[20i64, 21, 22, 25])
+    } else {
+        *rng.pick(NAMED_PRIMS)
+    }
 }
 
 /// Reads prefer what the program has touched (a read of an undefined name is only observable
@@ -771,7 +858,7 @@ fn gen_read(rng: &mut Rng, seen_cmd: &[(i64, i64)], seen_var: &[(i64, i64)]) -> 
         MOp::ReadVar { kind, idx }
     } else {
         let kind = *rng.pick(&[0i64, 0, 1, 2, 3, 4, 5, 6]);
-        let idx = if kind == 6 { *rng.pick(&[0i64, 1, 2, 5]) } else { rng.range(0, 3) };
+        let idx = if kind == 6 { *rng.pick(&[0i64, 1, 2, 5]) } else { gen_idx(kind, rng) };
         MOp::ReadVar { kind, idx }
     }
 }
@@ -840,6 +927,160 @@ fn gen_ops(rng: &mut Rng, size: usize) -> Vec<MOp> {
     }
     reads(&mut ops, rng, &seen_cmd, &seen_var);
     ops
+}
+
+/// Layered meanings: a few names (built-in names, fresh names, active characters) get a
+/// meaning chosen independently at every scope level — the primitive meaning (through the alias
+/// the preamble saved; for a built-in name often its *own* meaning), a macro, a register alias,
+/// a character, another name's current meaning, or nothing (so a fresh name stays undefined) —
+/// with `depth` groups open at the checkpoint. P2 reads every name at every level while closing
+/// the groups.
+fn gen_layers(rng: &mut Rng) -> Vec<MOp> {
+    let depth = rng.range(1, 3) as usize;
+    let n_names = rng.range(1, 3) as usize;
+    let mut names: Vec<(i64, i64)> = vec![];
+    while names.len() < n_names {
+        let t = match rng.below(5) {
+            0 | 1 | 2 => (0, 100 + *rng.pick(NAMED_PRIMS)),
+            3 => (0, rng.range(0, 4)),
+            _ => (1, rng.range(0, ACTIVE.len() as i64 - 1)),
+        };
+        if !names.contains(&t) {
+            names.push(t);
+        }
+    }
+    let mut ops = vec![];
+    for level in 0..=depth {
+        if level > 0 {
+            ops.push(MOp::Begin);
+        }
+        for &(tk, tn) in &names {
+            let own = if tk == 0 && tn >= 100 { Some(tn - 100) } else { None };
+            let pre = if level > 0 && rng.chance(1, 6) { 1 } else { 0 };
+            let def = |dk: i64, a: i64, b: i64, pre: i64| MOp::Define { pre, tk, tn, dk, a, b };
+            match rng.below(8) {
+                0 => {} // unchanged at this level
+                1 | 2 => ops.push(def(10, own.unwrap_or_else(|| gen_prim(rng)), 0, pre)),
+                3 => ops.push(def(10, gen_prim(rng), 0, pre)),
+                4 | 5 => ops.push(def(0, rng.range(0, 5), 0, pre)),
+                6 => {
+                    ops.push(def(4, rng.range(0, 3), 0, pre));
+                    if rng.chance(1, 2) {
+                        ops.push(MOp::Assign { pre: 0, kind: 0, idx: rng.range(0, 3), val: rng.range(1, 9) });
+                    }
+                }
+                _ => {
+                    if rng.chance(1, 2) {
+                        ops.push(def(2, rng.range(65, 90), 0, 0));
+                    } else {
+                        let (a, b) = *rng.pick(&names);
+                        ops.push(def(9, a, b, pre));
+                    }
+                }
+            }
+        }
+    }
+    ops.push(MOp::Ckpt);
+    let read_all = |ops: &mut Vec<MOp>| {
+        for &(tk, tn) in &names {
+            ops.push(MOp::ReadCmd { tk, tn });
+        }
+    };
+    read_all(&mut ops);
+    for _ in 0..depth {
+        ops.push(MOp::End);
+        read_all(&mut ops);
+    }
+    ops
+}
+
+/// Characters for the code tables: every initial category (escape, braces, math shift,
+/// alignment, end of line, parameter, super/subscript, ignored, space, letter, other, active,
+/// comment, invalid) and code points on both sides of 128, 256 and 65536.
+const CODE_SUBJECTS: &[u32] = &[
+    92, 123, 125, 36, 38, 13, 35, 94, 95, 0, 32, 97, 90, 48, 57, 64, 126, 37, 127, 9, 128, 200, 255, 256, 300, 70000,
+];
+
+/// How a character is written in P2 so that its category matters (`None`: not writable in an
+/// ASCII line without relying on the character itself).
+fn code_usage(c: u32) -> Option<String> {
+    match c {
+        0 => Some("x^^@y".into()),
+        9 => Some("x^^Iy".into()),
+        13 => Some("x^^My".into()),
+        127 => Some("x^^?y".into()),
+        128.. => None,
+        c => Some(format!("x{}y", char::from_u32(c)?)),
+    }
+}
+
+/// The code-table ingredient: `\catcode` and `\mathcode` of characters of every initial
+/// category set to interesting values — always including the type's default value (12 / 0) and
+/// the character's own initial value — inside and outside groups, with and without `\global`.
+/// P2 reads every touched code with `\the` at every level while closing the groups, and at the
+/// very end uses the characters so that their categories matter.
+fn gen_codes(rng: &mut Rng) -> String {
+    let depth = rng.range(0, 2) as usize;
+    let mut p1: Vec<String> = vec![];
+    let mut touched: Vec<(bool, u32)> = vec![]; // (is catcode, code point)
+    for level in 0..=depth {
+        if level > 0 {
+            p1.push("{".into());
+        }
+        for _ in 0..rng.range(1, 3) {
+            let c = *rng.pick(CODE_SUBJECTS);
+            let cat = rng.chance(2, 3);
+            let g = if rng.chance(1, 4) { "\\global" } else { "" };
+            if cat {
+                let init = initial_catcode(c) as i64;
+                // the escape character, the braces, digits, `a`, space and end of line keep the
+                // program readable: they are only ever re-assigned their own initial value
+                let fragile = matches!(c, 92 | 123 | 125 | 97 | 48 | 57 | 32 | 13);
+                let v = if fragile {
+                    init
+                } else {
+                    match rng.below(6) {
+                        0 | 1 => 12,
+                        2 => init,
+                        _ => rng.range(0, 15),
+                    }
+                };
+                if fragile && !touched.contains(&(true, 36)) {
+                    // a non-fragile companion so that the case still changes something
+                    p1.push(format!("{g}\\catcode 36={} ", *rng.pick(&[12i64, 3, 11])));
+                    touched.push((true, 36));
+                }
+                p1.push(format!("{g}\\catcode {c}={v} "));
+            } else {
+                let v = *rng.pick(&[0i64, 0, 1, 29025, 32767]);
+                p1.push(format!("{g}\\mathcode {c}={v} "));
+            }
+            if !touched.contains(&(cat, c)) {
+                touched.push((cat, c));
+            }
+        }
+    }
+    let reads = |p2: &mut Vec<String>| {
+        let mut l = String::from("/");
+        for (cat, c) in &touched {
+            l.push_str(&format!("\\the\\{} {c} ", if *cat { "catcode" } else { "mathcode" }));
+        }
+        p2.push(l);
+    };
+    let mut p2: Vec<String> = vec![];
+    reads(&mut p2);
+    for _ in 0..depth {
+        p2.push("}".into());
+        reads(&mut p2);
+    }
+    for (cat, c) in &touched {
+        if *cat {
+            if let Some(u) = code_usage(*c) {
+                p2.push(u);
+            }
+        }
+    }
+    format!("tex {}<NL><CP>{}<NL>", p1.join("<NL>"), p2.join("<NL>"))
 }
 
 /// Unmodelled state: (line for P1, lines for P2 that make it observable). P2 lines are repeated
@@ -1062,7 +1303,33 @@ impl C08 {
         };
         let variant = *self.variant.get_or_insert_with(probe_variant);
         o.tag(format!("tree-has-C01-fixes:{}{}{}", if variant & 1 != 0 { "a" } else { "-" }, if variant & 2 != 0 { "b" } else { "-" }, if variant & 4 != 0 { "c" } else { "-" }));
-        let reply = drv.ask(&format!("p {variant} {}", join(&ints)));
+        // The model's VM starts empty; the real one starts with the built-ins. For every
+        // built-in *name* the program mentions, the model first gets that built-in (not rendered).
+        let mut named: Vec<i64> = vec![];
+        for op in &ops {
+            let mut see = |tk: i64, tn: i64| {
+                if tk == 0 && tn >= 100 && !named.contains(&tn) {
+                    named.push(tn);
+                }
+            };
+            match op {
+                MOp::Define { tk, tn, dk, a, b, .. } => {
+                    see(*tk, *tn);
+                    if *dk == 9 {
+                        see(*a, *b);
+                    }
+                }
+                MOp::ReadCmd { tk, tn } => see(*tk, *tn),
+                _ => {}
+            }
+        }
+        let prelude: Vec<MOp> = named.iter().map(|tn| MOp::Define { pre: 0, tk: 0, tn: *tn, dk: 10, a: tn - 100, b: 0 }).collect();
+        if !named.is_empty() {
+            o.tag("ops-redefines-primitive-names");
+        }
+        let mut sent = enc_ops(&prelude);
+        sent.extend(&ints);
+        let reply = drv.ask(&format!("p {variant} {}", join(&sent)));
         let parts: Vec<&str> = reply.split(" | ").collect();
         if parts.len() != 3 {
             o.fail(Kind::ImplVsModel, "driver", "driver rejected the case", reply);
@@ -1074,10 +1341,9 @@ impl C08 {
             o.fail(Kind::ModelVsSpec, "model", "model: checkpoint changes the run", format!("without: {m_plain}; with: {m_ck}"));
         }
         // the model's outputs, one per op that ran (the marker has none)
-        let words: Vec<&str> = m_ck.split(' ').collect();
+        let words: Vec<&str> = m_ck.split(' ').skip(prelude.len()).collect();
         let mut wi = 0usize;
-        let (mut p1, mut p2) = (String::new(), String::new());
-        p1.push_str("\\catcode`\\~=13 \\catcode`\\!=13 \\catcode`\\?=13 \\catcode`\\@=13 ");
+        let (mut p1, mut p2) = (ops_preamble(), String::new());
         let mut expect1: Vec<Option<String>> = vec![];
         let mut expect2: Vec<Option<String>> = vec![];
         let mut after = false;
@@ -1275,6 +1541,8 @@ impl Property for C08 {
         "names: NameTableSound on the real built-in map (every alphabetic built-in name aliased by \\let, every variable built-in saved in a group; serialised names resolved through the serialised interner). \
          ops: hand-written boundary programs, then random programs of modelled operations: P1 = 1..size ops over {, }, assignments to \\count/\\dimen/\\skip/\\toks 0..3, \\catcode/\\mathcode 200..203, \\globaldefs (-1,0,1), \\endlinechar (-1,13,32), \\year \\month \\day \\time, \
          definitions of 5 control sequences and 4 active characters by \\def \\gdef \\chardef \\mathchardef \\countdef \\toksdef \\let (to a character, to another target, to a built-in primitive), 0..2 \\global prefixes; the checkpoint; P2 = reads, then every open group closed with reads after each } (sometimes one } too many, sometimes more definitions). \
+         layers: 1..3 names (built-in primitive names such as \\relax \\count \\def \\let \\else \\fi \\global, fresh names, active characters) get an independently chosen meaning at every scope level 0..3 (own primitive meaning through an alias saved by the preamble, another primitive, macro, \\countdef alias, \\chardef, another name's meaning, unchanged), checkpoint inside the open groups, every name read at every level while closing them; the rendered program uses only \\z-aliases of the primitives it needs, so any primitive name can be redefined. \
+         codes: \\catcode and \\mathcode of characters of every initial category and on both sides of 128/256/65536 set to every category incl. the default 12/0 and the character's own initial value, in and out of groups, with and without \\global; read with \\the at every level after the checkpoint, then the characters are used. \
          tex: random selections from a table of unmodelled state (parameterised and delimited macros, \\long, catcode changes incl. active letters and code points > 127, \\endlinechar, token lists with control sequences, \\newInt/\\newIntArray, interaction modes, glue, \\let to 20 primitives incl. conditionals, interned-but-undefined names, pending output white space) inside open groups and open conditionals (\\iftrue, \\iffalse\\else, \\ifcase, \\ifnum, \\ifodd, nested) that P2 closes; every probe is repeated after every closing brace. \
          Each case runs 4 VMs (no checkpoint, JSON, MessagePack, bincode). Non-trivial = P1 runs to its end without error (a checkpoint is taken); distinct = distinct case string."
             .into()
@@ -1370,16 +1638,24 @@ impl Property for C08 {
     }
     fn generate(&mut self, ctx: &Ctx, rng: &mut Rng) -> Vec<String> {
         let mut v = vec![];
-        let (n_ops, n_tex) = if ctx.thorough { (3500, 2500) } else { (330, 250) };
+        let (n_ops, n_layers, n_tex, n_codes) = if ctx.thorough { (3000, 1500, 2200, 1500) } else { (240, 150, 200, 150) };
         let mut r = rng.fork();
         for i in 0..n_ops {
             let size = [3, 6, 10, 16, 24][i % 5];
             v.push(format!("ops {}", join(&enc_ops(&gen_ops(&mut r, size)))));
         }
         let mut r = rng.fork();
+        for _ in 0..n_layers {
+            v.push(format!("ops {}", join(&enc_ops(&gen_layers(&mut r)))));
+        }
+        let mut r = rng.fork();
         for i in 0..n_tex {
             let size = [2, 4, 7, 10][i % 4];
             v.push(gen_tex(&mut r, size));
+        }
+        let mut r = rng.fork();
+        for _ in 0..n_codes {
+            v.push(gen_codes(&mut r));
         }
         v
     }
@@ -1423,7 +1699,9 @@ impl Property for C08 {
             let n = ops.len();
             let emit = |keep: &dyn Fn(usize) -> bool, out: &mut Vec<String>| {
                 let v: Vec<MOp> = ops.iter().enumerate().filter(|(i, o)| **o == MOp::Ckpt || keep(*i)).map(|(_, o)| o.clone()).collect();
-                if v.len() < n {
+                // keep something to run after the checkpoint, so that the replay shows behaviour
+                let post = v.iter().skip_while(|o| **o != MOp::Ckpt).count();
+                if v.len() < n && post >= 2 {
                     out.push(format!("ops {}", join(&enc_ops(&v))));
                 }
             };
